@@ -68,19 +68,40 @@ def imports_of(tree):
 
 
 def foreign_imports(gen):
-    """imports of an emitted file that are neither relative, stdlib, httpx/cattrs, the package itself nor its core package"""
+    """imports of an emitted file — anywhere in the file, `if TYPE_CHECKING:` blocks and function bodies included — that leave the allowed set: standard
+    library, httpx / cattrs, the emitted package itself and its designated core package.  A relative import is resolved against the position of the
+    importing file: it must stay inside the emitted package or the core package and name a module or package that exists there."""
     out = []
-    own = {gen.pkg.split(".")[0], gen.core_pkg.split(".")[0]}
+    pkg, core = gen.pkg, gen.core_pkg
+
+    def inside(mod):
+        return any(mod == p_ or mod.startswith(p_ + ".") for p_ in (pkg, core))
+
+    def exists(mod):
+        base = os.path.join(gen.root, *mod.split("."))
+        return os.path.isdir(base) or os.path.isfile(base + ".py")
     for f in gen.py_files():
         try:
             tree = parse(f)
         except SyntaxError:
             continue
+        rel = os.path.relpath(f, gen.root)
+        here = rel[:-3].split(os.sep)
+        here_pkg = here[:-1]  # the package the importing module lives in (an __init__.py lives in its own directory's package)
         for mod, level, ln in imports_of(tree):
             if level:
+                if level - 1 > len(here_pkg):
+                    out.append((rel, ln, "." * level + mod + " (beyond the top-level package)"))
+                    continue
+                base = here_pkg[: len(here_pkg) - (level - 1)]
+                target = ".".join(base + ([mod] if mod else []))
+                if not inside(target) or not exists(target):
+                    out.append((rel, ln, "." * level + mod + f" (resolves to {target or '<root>'}: outside the emitted package and its core package, or missing)"))
                 continue
             top = mod.split(".")[0]
-            if top in STDLIB or top in ALLOWED_THIRD or top in own or top == "__future__":
+            if top in STDLIB or top in ALLOWED_THIRD or top == "__future__":
                 continue
-            out.append((os.path.relpath(f, gen.root), ln, mod))
+            if inside(mod):
+                continue
+            out.append((rel, ln, mod))
     return out
